@@ -188,12 +188,12 @@ func checkC19(p *Prog, r *Report) {
 	r.Rule("C19/ACL-TABLE", "decision table of rsyncd.checkACL extracted path by path (atoms identified by provenance: Z=len(acls)==0, H/P=peer address unparsable, MORE=range over acls in order, NS=no space, A/D=action text, ALL=who==\"all\", BAD=ParseCIDR error, IN=(*net.IPNet).Contains(peer IP)) and compared with first-match allow/deny, default allow, error on a malformed rule reached", 12)
 	pe := &PathEnum{
 		Atom: atom,
-		Outcome: func(last ssa.Instruction) string {
+		Outcome: func(last ssa.Instruction, _ []string) string {
 			ret, ok := last.(*ssa.Return)
 			if !ok {
 				return "panic"
 			}
-			if isNilConst(ret.Results[0]) {
+			if isNilConst(retResults(ret)[0]) {
 				return "allow"
 			}
 			return "error"
